@@ -15,7 +15,13 @@ CLAIMS = {
  "C10": ("Theorems: Intersect has exactly the identifiers present in both operands (each once), its roots are exactly the surviving nodes that are a root of either operand, its edges exactly the edges of either operand between surviving nodes; commutative, idempotent, absorbs a union containing the first operand, empty against the empty list; surviving nodes are the first operand's node updated by the second's (second-operand-wins per attribute, regenerated table).",
          "No hypothesis on the operands for the set clauses; unique identifiers for the node-level clause.",
          "Lean 4 proof (refinement to set intersection) + regenerated tables + differential correspondence"),
- "C15": ("Theorems: the worklist form of connectedIndexRecursion is defined by well-founded recursion (termination on every graph is checked by Lean) and computes exactly the paths from the start node through present non-root nodes; nodeGraph's nodes, edges (restriction to returned nodes) and sole root; nodeSiblings one hop; nodeDescendants: every returned node lies within fewer than depth hops (soundness half, named _partial), edges restricted, root; node sets independent of node/edge order. Completeness and depth-monotonicity of nodeDescendants are decided by correspondence and the Go-side breadth-first oracle only.",
+ "C13": ("Theorems: node, edge and node-list equality are equivalence relations (node-list equality is characterised as equality of lengths, sorted roots, sorted edge strings and the id-to-checksum map, which needs a pigeonhole argument); equality agrees with checksum equality up to an exhibited collision of the hash function (a parameter); the flattened string is invariant under every permutation of set-valued attributes, map entries, suppliers/originators/references, edge targets, and (with unique ids) nodes, edges and roots of a list; every schema attribute is flattened with a treatment fitting its kind (regenerated table). Discrimination is PARTIAL: proved at pair level for scalar attributes; the joined string is not injective (kernel-checked collision witness, known finding KF-C13-separators); single-attribute discrimination over every schema field is decided by the eq stream.",
+         "SHA-256 is a parameter H; contact order inside a person is content, not a set.",
+         "Lean 4 proof (equivalence, permutation invariance via sorted-list uniqueness) + regenerated tables + differential correspondence"),
+ "C14": ("Theorems over the regenerated Diff table: diff n n = none; diff n m = none exactly when identifier, type and every schema attribute agree (sets for list-valued attributes, persons and references by flattened content, maps as maps, dates to the second); the count is a sum of one 0/1 entry per attribute, 0 exactly when that attribute agrees; applying the reported additions and removals to the first node rebuilds every attribute of the second. Helper lemmas for diff, diffSlice, diffList, diffMap, diffDates are proved once and lifted along the schema.",
+         "Hypothesis `typed`: attribute lists follow the schema and maps are key-unique (Go maps).",
+         "Lean 4 proof (per-helper lemmas lifted along the regenerated schema) + differential correspondence"),
+ "C15": ("Theorems: the worklist form of connectedIndexRecursion is defined by well-founded recursion (termination on every graph is checked by Lean) and computes exactly the paths from the start node through present non-root nodes; nodeGraph's nodes, edges (restriction to returned nodes) and sole root; nodeSiblings one hop; nodeDescendants returns exactly the nodes reached within fewer than depth hops where another root is reached but never traversed through (soundness and completeness of the level-by-level loop), hence monotone in the depth, depth one is the start node alone; edges restricted, root; node sets independent of node/edge order.",
          "Identifiers are assumed non-empty for the traversal clauses (NodeSiblings treats \"\" as a sentinel).",
          "Lean 4 proof (reachability characterisation, well-founded termination) + differential correspondence"),
  "C16": ("Theorems: every lookup equals its filter (name, id, identifier, purl type, roots under unique ids); GetMatchingNode equals the documented rule written declaratively (specMatch), returns only nodes of the list, is invariant under every permutation of the node list and of the probe's hash entries.",
